@@ -67,6 +67,15 @@ def follow (s : St) : Nat → Ag → Task → Except String (String × Task)
 
 def showTasks (t : List Nat) : String := if t.isEmpty then "-" else ",".intercalate (t.map toString)
 
+def parsePkgs : List String → Option (List (Nat × Nat × String))
+  | [] => some []
+  | c :: r :: f :: _body :: rest => do
+    let c ← c.toNat?
+    let r ← r.toNat?
+    let ps ← parsePkgs rest
+    pure ((c, r, f) :: ps)
+  | _ => none
+
 def step (s : St) (l : Line) : St × Verdict :=
   match l.op, l.args with
   | "agent", id :: _key :: _iv :: ks :: rest =>
@@ -124,6 +133,30 @@ def step (s : St) (l : Line) : St × Verdict :=
         else (s', .ok)
       | _, _ => (s, .bad "relay tasks csv")
     | _, _, _, _, _, _ => (s, .bad s!"relay: {joinSp l.impl}")
+  | "relayn", parent :: child :: _wrapreq :: pkgs =>
+    -- several packages of the child in one relayed frame: each is gated by the child's outstanding ids as they
+    -- stand when it is reached (a final callback earlier in the frame retires its id), none by the parent's
+    match s.find parent, s.find child, parsePkgs pkgs, l.impl with
+    | some pa, some ca, some ps, [fx, tc, tp] =>
+      match natCsv ((tc.drop 7).toString), natCsv ((tp.drop 7).toString), ((fx.drop 8).toString).toNat? with
+      | some tcs, some tps, some nfx =>
+        let (want, acted) := ps.foldl (fun (acc : List Nat × Nat) (p : Nat × Nat × String) =>
+          let (cur, k) := acc
+          let (c, r, final) := p
+          if isKnown false cur r c then (if final == "1" then cur.erase r else cur, if c == 11 then k + 1 else k) else (cur, k)) (ca.tasks, 0)
+        let anyKnown := want ≠ ca.tasks ∨ acted > 0 ∨ ps.any fun (c, r, _) => isKnown false ca.tasks r c
+        let s' := (s.upd { ca with tasks := tcs }).upd { pa with tasks := tps }
+        if tps ≠ pa.tasks then
+          (s', .specFail "C08.relay" s!"relayed frame for {child} changed the relaying parent's outstanding ids {showTasks pa.tasks} -> {showTasks tps}")
+        else if tcs ≠ want then
+          (s', .specFail "C08.relay" s!"relayed frame of {ps.length} packages: {child}'s outstanding ids {showTasks ca.tasks} -> {showTasks tcs}, expected {showTasks want}")
+        else if nfx < acted then
+          (s', .specFail "C08.relay" s!"relayed frame: {acted} package(s) answer outstanding tasks of {child} but only {nfx} effect(s) were attributed to it")
+        else if !anyKnown ∧ nfx ≠ 0 then
+          (s', .specFail "C08.relay" s!"relayed frame without any outstanding id took effect ({fx})")
+        else (s', .ok)
+      | _, _, _ => (s, .bad "relayn tasks csv")
+    | _, _, _, _ => (s, .bad s!"relayn: {joinSp l.impl}")
   | op, _ => (s, .bad s!"unknown op {op}")
 
 end Havoc.DriverC08
